@@ -721,7 +721,16 @@ public:
     std::string params;
     for (const ParmVarDecl *P : FD->parameters()) {
       if (!params.empty()) params += ",";
-      params += "{\"name\":" + q(P->getNameAsString()) + ",\"t\":" + q(typeSummary(P->getType())) + "}";
+      params += "{\"name\":" + q(P->getNameAsString()) + ",\"t\":" + q(typeSummary(P->getType()));
+      {
+        QualType PT = P->getType().getNonReferenceType();
+        if (PT->isPointerType()) PT = PT->getPointeeType();
+        if (!PT->isIncompleteType() && !PT->isDependentType() && !PT->isFunctionType() && !PT->isVoidType()) {
+          params += ",\"sz\":" + std::to_string(Ctx.getTypeSizeInChars(PT).getQuantity()) + ",\"al\":" +
+                    std::to_string(Ctx.getTypeAlignInChars(PT).getQuantity());
+        }
+      }
+      params += "}";
     }
     std::string cls;
     if (auto *MD = dyn_cast<CXXMethodDecl>(FD)) {
